@@ -318,8 +318,11 @@ func runR131(c *Ctx) {
 	tested := map[int64]bool{}
 	for _, g := range scopeFns {
 		allInstrs(g, func(ins ssa.Instruction) {
-			if bo, ok := ins.(*ssa.BinOp); ok && bo.Op == token.EQL {
+			if bo, ok := ins.(*ssa.BinOp); ok && (bo.Op == token.EQL || bo.Op == token.NEQ) {
 				if k, ok := constInt(bo.Y); ok && strings.HasSuffix(bo.X.Type().String(), "protowire.Number") {
+					tested[k] = true
+				}
+				if k, ok := constInt(bo.X); ok && strings.HasSuffix(bo.Y.Type().String(), "protowire.Number") {
 					tested[k] = true
 				}
 			}
